@@ -19,6 +19,7 @@ import (
 	"github.com/caddyserver/caddy/v2"
 
 	"github.com/mholt/caddy-l4/layer4"
+	_ "github.com/mholt/caddy-l4/modules/l4proxyprotocol"
 
 	"verif/mc/explore"
 	"verif/mc/hm"
@@ -33,6 +34,9 @@ import (
 //	T  matched by a terminal route (consumed by layer4)
 //	F  falls through to the wrapped listener with its prefetched bytes unconsumed
 //	G  like F, but a non-terminal route first consumes 2 bytes
+//	W  like F, but a non-terminal route first strips a PROXY header with the shipped
+//	   proxy_protocol handler, which continues on a wrapped connection (Connection.Wrap):
+//	   the connection handed over is the wrapped one
 //	U  stays undecided: matching times out
 //	E  a matcher fails with an error
 type Scn struct {
@@ -46,11 +50,29 @@ type Scn struct {
 const routesJSON = `[
  {"match":[{"h_need":{"id":"mT","k":1,"pat":"T","err_on":"E"}}], "handle":[{"handler":"h_rec","id":"term","buf":7}]},
  {"match":[{"h_need":{"id":"mG","k":1,"pat":"G"}}], "handle":[{"handler":"h_consume","id":"c2","n":2}]},
+ {"match":[{"h_need":{"id":"mP","k":1,"pat":"P"}}], "handle":[{"handler":"proxy_protocol"}]},
  {"match":[{"h_need":{"id":"mU","k":3,"pat":"UUU"}}], "handle":[{"handler":"h_rec","id":"never","buf":7}]}
 ]`
 
+const ppHeader = "PROXY TCP4 198.51.100.7 203.0.113.2 1111 2222\r\n"
+
+// handedOver is what the wrapped listener's consumer must read from connection i.
+func handedOver(kind byte, i, payload int) string {
+	full := stream(kind, i, payload)
+	switch kind {
+	case 'G':
+		return string(full[2:])
+	case 'W':
+		return string(full[len(ppHeader):])
+	}
+	return string(full)
+}
+
 func stream(kind byte, i, payload int) []byte {
 	s := []byte{kind, byte('0' + i)}
+	if kind == 'W' {
+		s = append([]byte(ppHeader), s...)
+	}
 	if kind == 'U' {
 		return s // two bytes only: the 3-byte matcher stays undecided until the matching timeout
 	}
@@ -226,19 +248,16 @@ func check(x *explore.Exec, sc *Scn, r *result) {
 			continue // never accepted from the underlying listener (it was closed first): not layer4's to handle
 		}
 		full := stream(kind, i, sc.Payload)
-		want := string(full)
-		if kind == 'G' {
-			want = string(full[2:])
-		}
+		want := handedOver(kind, i, sc.Payload)
 		// any accepted stream that carries this connection's id but not exactly its bytes
 		for _, a := range r.accepted {
-			if len(a.data) > 1 && a.data[1] == full[1] && a.data[0] == kind && string(a.data) != want ||
+			if len(a.data) > 1 && a.data[1] == byte('0'+i) && a.data[0] == kind && string(a.data) != want ||
 				(kind == 'G' && strings.HasPrefix(string(full[2:]), string(a.data)) && len(a.data) > 0 && string(a.data) != want) {
 				x.Fail("handover-stream-not-intact", "connection %d (%q) was handed over reading %q; %s", i, full, a.data, desc())
 			}
 		}
 		switch kind {
-		case 'F', 'G':
+		case 'F', 'G', 'W':
 			n := count[want]
 			if n > 1 {
 				x.Fail("delivered-twice", "connection %d delivered %d times; %s", i, n, desc())
@@ -275,8 +294,7 @@ func check(x *explore.Exec, sc *Scn, r *result) {
 		}
 		known := false
 		for i := 0; i < len(sc.Conns); i++ {
-			full := stream(sc.Conns[i], i, sc.Payload)
-			if string(a.data) == string(full) || (sc.Conns[i] == 'G' && string(a.data) == string(full[2:])) {
+			if string(a.data) == handedOver(sc.Conns[i], i, sc.Payload) {
 				known = true
 			}
 		}
@@ -309,7 +327,7 @@ func scenarios(tier string, yield0 func(any) bool) {
 		}
 		return yield0(sc)
 	}
-	kinds := "FTGUE"
+	kinds := "FTGUEW"
 	var mixes []string
 	for _, a := range kinds {
 		mixes = append(mixes, string(a))
@@ -322,7 +340,7 @@ func scenarios(tier string, yield0 func(any) bool) {
 			}
 		}
 	}
-	mixes = append(mixes, "FFF", "FTF", "FFT")
+	mixes = append(mixes, "FFF", "FTF", "FFT", "WFW", "WWF")
 	for _, m := range mixes {
 		for _, cons := range []string{"eager", "late", "never"} {
 			for _, procs := range []int{1, 2} {
@@ -362,7 +380,7 @@ func main() {
 	runner.Main(&runner.Harness{
 		ID:    "C13",
 		Level: "model_checking",
-		Rule:  "mixes of 1-2 (3 thorough) connections of kinds {terminal-route match, fall-through, fall-through after a non-terminal route consumed 2 bytes, undecided until the matching timeout, matcher error} x consumer {Accept eagerly, only after all matching ended, never} x hand-off channel capacity {1,2} x listener Close before connection k / at the end x payload {3, 9 bytes}; every interleaving of the real listener loop, handle goroutines, Accept, Close and the consumer within the joint deviation budget (delay bounding; 3 quick / 4 thorough for the mixes around a falling-through connection with channel capacity 1, one less otherwise: preemptions, select alternatives, early timers, pool misses, short reads); the buffer pool is a deterministic LIFO so that reuse of a just-returned buffer is the default",
+		Rule:  "mixes of 1-2 (3 thorough) connections of kinds {terminal-route match, fall-through, fall-through after a non-terminal route consumed 2 bytes, fall-through of the wrapped connection after the shipped proxy_protocol handler stripped a PROXY header, undecided until the matching timeout, matcher error} x consumer {Accept eagerly, only after all matching ended, never} x hand-off channel capacity {1,2} x listener Close before connection k / at the end x payload {3, 9 bytes}; every interleaving of the real listener loop, handle goroutines, Accept, Close and the consumer within the joint deviation budget (delay bounding; 3 quick / 4 thorough for the mixes around a falling-through connection with channel capacity 1, one less otherwise: preemptions, select alternatives, early timers, pool misses, short reads); the buffer pool is a deterministic LIFO so that reuse of a just-returned buffer is the default",
 		Assumptions: []string{
 			"the code under test is /repo's working tree mechanically redirected to the scheduler (tools/gomcrw); sync.Pool is replaced by a deterministic LIFO pool",
 			"TLS-terminated fall-through is covered by C01's TLS chains and the tlsConnection wrapper is not exercised here",
